@@ -36,3 +36,8 @@ mod c20 {
 mod native_c12 {
     include!(concat!(env!("CLAP_VERIF_DIR"), "/native_c12.rs"));
 }
+#[cfg(all(test, not(kani)))]
+#[allow(dead_code, unused_imports, unused_qualifications, clippy::all)]
+mod native_spec {
+    include!(concat!(env!("CLAP_VERIF_DIR"), "/native_spec.rs"));
+}
